@@ -7,6 +7,7 @@ import (
 	"fmt"
 	"go/token"
 	"go/types"
+	"sort"
 	"strings"
 
 	"golang.org/x/tools/go/ssa"
@@ -40,6 +41,66 @@ func (x *Exec) packResults(t types.Type, rs []V) V {
 	return V{T: t}
 }
 
+// sourceCallOrdinals numbers the calls of each callee name in source order.
+func sourceCallOrdinals(fn *ssa.Function) map[*ssa.CallCommon]int {
+	type site struct {
+		cc   *ssa.CallCommon
+		pos  token.Pos
+		b, i int
+	}
+	byName := map[string][]site{}
+	for _, b := range fn.Blocks {
+		for idx, in := range b.Instrs {
+			ci, ok := in.(ssa.CallInstruction)
+			if !ok {
+				continue
+			}
+			cc := ci.Common()
+			name := ""
+			if cc.IsInvoke() {
+				name = cc.Method.Name()
+			} else {
+				switch c := cc.Value.(type) {
+				case *ssa.Function:
+					name = funcKey(c)
+				case *ssa.MakeClosure:
+					name = funcKey(c.Fn.(*ssa.Function))
+				}
+			}
+			if name == "" {
+				continue
+			}
+			byName[name] = append(byName[name], site{cc, in.Pos(), b.Index, idx})
+		}
+	}
+	out := map[*ssa.CallCommon]int{}
+	for _, sites := range byName {
+		sort.Slice(sites, func(i, j int) bool {
+			if sites[i].pos != sites[j].pos {
+				return sites[i].pos < sites[j].pos
+			}
+			if sites[i].b != sites[j].b {
+				return sites[i].b < sites[j].b
+			}
+			return sites[i].i < sites[j].i
+		})
+		for k, s := range sites {
+			out[s.cc] = k + 1
+		}
+	}
+	return out
+}
+
+// callRec is one entry of the per-frame ghost call log (typestate obligations,
+// DESIGN.md 3.7): which calls were executed, under which guard, in which order,
+// with which arguments and results.
+type callRec struct {
+	guard string
+	args  []V
+	res   V
+	seq   int
+}
+
 func (x *Exec) callCommon(fr *Frame, st *State, val ssa.Value, cc *ssa.CallCommon, pos token.Pos) V {
 	rt := resultType(cc)
 	x.curCall = cc
@@ -47,27 +108,73 @@ func (x *Exec) callCommon(fr *Frame, st *State, val ssa.Value, cc *ssa.CallCommo
 	for _, a := range cc.Args {
 		args = append(args, x.value(fr, a))
 	}
-	if cc.IsInvoke() {
-		recv := x.value(fr, cc.Value)
-		x.atCall(fr, st, cc.Method.Name(), nil, append([]V{recv}, args...), pos)
-		return x.invoke(fr, st, cc, recv, args, rt, pos)
-	}
-	switch callee := cc.Value.(type) {
-	case *ssa.Builtin:
-		return x.builtin(fr, st, callee, cc, args, rt, pos)
-	case *ssa.Function:
-		return x.callFunc(fr, st, callee, nil, args, rt, pos)
-	case *ssa.MakeClosure:
-		cv := x.value(fr, callee)
-		return x.callFunc(fr, st, cv.Cl.Fn, cv.Cl.Bindings, args, rt, pos)
+	// name under which at-call clauses and the call log refer to this call
+	name := ""
+	var callee *ssa.Function
+	var bindings []V
+	var recv V
+	switch {
+	case cc.IsInvoke():
+		recv = x.value(fr, cc.Value)
+		name = cc.Method.Name()
 	default:
-		fv := x.value(fr, cc.Value)
-		if fv.Cl != nil {
-			return x.callFunc(fr, st, fv.Cl.Fn, fv.Cl.Bindings, args, rt, pos)
+		switch c := cc.Value.(type) {
+		case *ssa.Builtin:
+			return x.builtin(fr, st, c, cc, args, rt, pos)
+		case *ssa.Function:
+			callee = c
+		case *ssa.MakeClosure:
+			cv := x.value(fr, c)
+			callee, bindings = cv.Cl.Fn, cv.Cl.Bindings
+		default:
+			fv := x.value(fr, cc.Value)
+			if fv.Cl != nil {
+				callee, bindings = fv.Cl.Fn, fv.Cl.Bindings
+			}
 		}
+		if callee != nil {
+			name = funcKey(callee)
+		}
+	}
+	if name == "" {
 		x.havocAll(st, fmt.Sprintf("call through a function value of unknown origin in %s", funcKey(fr.fn)))
 		return x.freshOfType(st, rt, "dyn")
 	}
+	logArgs := args
+	if cc.IsInvoke() {
+		logArgs = append([]V{recv}, args...)
+	}
+	var rec *callRec
+	ord := 0
+	if fr.callOrd != nil && x.specMode == 0 {
+		// ordinals follow source order (k-th call of this callee in the function text), not
+		// the order in which blocks happen to be visited
+		if fr.callOrdOf == nil {
+			fr.callOrdOf = sourceCallOrdinals(fr.fn)
+		}
+		ord = fr.callOrdOf[cc]
+		if ord == 0 {
+			fr.callOrd[name]++
+			ord = 1000 + fr.callOrd[name]
+		}
+		if fr.callLog == nil {
+			fr.callLog = map[string]*callRec{}
+		}
+		fr.callSeq++
+		rec = &callRec{guard: st.guard, args: logArgs, seq: fr.callSeq}
+		fr.callLog[fmt.Sprintf("%s#%d", name, ord)] = rec
+	}
+	x.atCall(fr, st, name, ord, callee, logArgs, pos)
+	var res V
+	if cc.IsInvoke() {
+		res = x.invoke(fr, st, cc, recv, args, rt, pos)
+	} else {
+		res = x.callFunc(fr, st, callee, bindings, args, rt, pos)
+	}
+	if rec != nil {
+		rec.res = res
+	}
+	return res
 }
 
 func (x *Exec) invoke(fr *Frame, st *State, cc *ssa.CallCommon, recv V, args []V, rt types.Type, pos token.Pos) V {
@@ -117,7 +224,6 @@ func (x *Exec) callFunc(fr *Frame, st *State, callee *ssa.Function, bindings []V
 	if callee.Origin() != nil {
 		key = fullFuncKey(callee.Origin())
 	}
-	x.atCall(fr, st, funcKey(callee), callee, args, pos)
 	// library models first
 	if v, ok := x.libCall(fr, st, key, callee, args, rt, pos); ok {
 		return v
@@ -195,12 +301,10 @@ func (x *Exec) inlinable(fn *ssa.Function, c *Contract) bool {
 }
 
 // atCall processes the caller's at-call clauses for the k-th call of `name`.
-func (x *Exec) atCall(fr *Frame, st *State, name string, callee *ssa.Function, args []V, pos token.Pos) {
-	if fr.contract == nil || x.specMode > 0 {
+func (x *Exec) atCall(fr *Frame, st *State, name string, ord int, callee *ssa.Function, args []V, pos token.Pos) {
+	if fr.contract == nil || x.specMode > 0 || ord == 0 {
 		return
 	}
-	fr.callOrd[name]++
-	ord := fr.callOrd[name]
 	atc := fr.contract.Calls[fmt.Sprintf("%s#%d", name, ord)]
 	if atc == nil {
 		return
@@ -280,7 +384,21 @@ func (x *Exec) callContract(fr *Frame, st *State, c *Contract, callee *ssa.Funct
 	}
 	env2.bindResultNames(callee, method)
 	for _, e := range c.Ensures {
-		x.assume(st.guard, env2.evalBool(e.E))
+		f, skip := func() (f string, skip bool) {
+			defer func() {
+				if r := recover(); r != nil {
+					if ce, ok := r.(contractError); ok && strings.HasPrefix(string(ce), "call-log:") {
+						skip = true
+						return
+					}
+					panic(r)
+				}
+			}()
+			return env2.evalBool(e.E), false
+		}()
+		if !skip {
+			x.assume(st.guard, f)
+		}
 	}
 	return res
 }
